@@ -1,5 +1,155 @@
-import VelaVerif.Model.SchedMem
+import VelaVerif.Lemmas.SchedMem
 import VelaVerif.Spec.SchedMem
-/-! placeholder: theorems follow -/
+/-!
+# C12 / C02 — what the scheduler assumes a schedule needs is what the schedule really needs
+
+`Model/SchedMem.lean` transcribes the memory bookkeeping of `scheduler.py` / `cascade_builder.py` (equal to the real
+`CascadeBuilder` / `Scheduler` on every call of every compiled network of the cascade-heavy corpus, `harness/sched_lib.py`).
+The theorems say, for **every** input of the modelled functions (any operations, any stripes the search could propose,
+any non-local usage, any limit):
+
+* (c) `buffer_map_consistent`, `accepted_buffers_sufficient` — the buffer recorded for a (producer, consumer) pair of an
+  accepted cascade is `rolling_buffer_shape` of the stripes of the cost map the cascade was built from, hence sufficient in
+  the sense of `Spec.SchedMem.BufferSufficient` (the hypotheses of C10's `rolling_sufficient`);
+  `buffer_map_stale_witness`: a cache that outlives one call does not have this property (serves C10 / C02);
+* (a) `cascade_estimate_closed_form`, `dedicated_sram_cascade_within_limit` — what `CascadeInfo.mem_usage` stands for, and
+  the hard limit in Dedicated-SRAM mode (serves the Dedicated-SRAM clause of C02 and "reported memory is sufficient" of C12);
+  the bridge to `Model/LiveRange.lean` is `cascade_estimate_covers_liverange_peak` below.
+-/
 namespace VelaVerif.Props.C12Sched
+open VelaVerif VelaVerif.SchedMem VelaVerif.Cascade
+
+/-- **buffer_map_consistent (c).**  `build_cascades` starts with an empty `BufferMap`.  For every cascade it returns and every
+    entry `(j, shape)` of `CascadeInfo.buffers`: `j` is the index of an operation `c` of the builder whose predecessor `p`
+    (index `j - 1`) is its producer, neither side needs its feature map in full, and `shape` is
+    `rolling_buffer_shape(cost[p].stripe, cost[c].stripe_input, ifm_box_overread(c))` for the cost map `ref` **of this call**.
+    (Any cost maps, any limit; `UniqueIdx`: two operations of `sched_ops` have different `index`.) -/
+theorem buffer_map_consistent (b : Builder) (ref fb : CostMap) (limit : Int) (st : BState) (hu : UniqueIdx b.ops)
+    (h : buildCascades b ref fb limit = .ok st) :
+    ∀ ci ∈ st.cascades, ∀ e ∈ ci.buffers, ∃ p c pc cc,
+      p ∈ b.ops ∧ c ∈ b.ops ∧ p.index + 1 = c.index ∧ c.index = e.1 ∧
+      ref.lookup p.index = some pc ∧ ref.lookup c.index = some cc ∧ e.2.n = 1 ∧
+      rollingBufferShape pc.stripe.h pc.stripe.w pc.stripe.c cc.stripeInput.h cc.stripeInput.w c.overread = .ok (e.2.h, e.2.w, e.2.c) := by
+  intro ci hci e he
+  have hinv := buildCascadesFrom_inv [] b ref fb limit st hu (by intro p _ c _ v hv; simp at hv) h
+  obtain ⟨p, c, hp, hc, hidx, hj, h1, h2, sz, hcb⟩ := (hinv.good ci hci).bufs e he
+  obtain ⟨pc, cc, bh, bw, bd, hpc, hcc, hr, hv⟩ := computeBuffer_rolling h1 h2 hcb
+  refine ⟨p, c, pc, cc, hp, hc, hidx, hj, hpc, hcc, ?_, ?_⟩
+  · have := congrArg (·.1.n) hv; simpa using this
+  · have e1 := congrArg (·.1.h) hv; have e2 := congrArg (·.1.w) hv; have e3 := congrArg (·.1.c) hv
+    simp only at e1 e2 e3
+    rw [e1, e2, e3]; exact hr
+
+/-- the same for a builder that is handed a cache: if every cached entry agrees with the cost map of the call, so does every
+    buffer of every cascade of the result (the invariant `get_buffer` maintains) -/
+theorem buffer_map_consistent_from (bm0 : BufferMap) (b : Builder) (ref fb : CostMap) (limit : Int) (st : BState)
+    (hu : UniqueIdx b.ops) (h0 : bm0.Consistent b.ops ref) (h : buildCascadesFrom bm0 b ref fb limit = .ok st) :
+    st.bm.Consistent b.ops ref ∧ ∀ ci ∈ st.cascades, BufsOf b.ops ref ci.buffers := by
+  have hinv := buildCascadesFrom_inv bm0 b ref fb limit st hu h0 h
+  exact ⟨hinv.bm, fun ci hci => (hinv.good ci hci).bufs⟩
+
+/-- `rolling_buffer_shape` satisfies the Spec: tall enough for one producer stripe, one consumer stripe and the over-read,
+    a multiple of the consumer stripe, as wide as the wider side, channels in bricks of 16 -/
+theorem rollingBufferShape_sufficient (pH pW pD cH cW over bh bw bd : Nat)
+    (hr : rollingBufferShape pH pW pD cH cW over = .ok (bh, bw, bd)) :
+    Spec.SchedMem.BufferSufficient pH pW pD cH cW over bh bw bd := by
+  unfold rollingBufferShape at hr
+  split at hr
+  · cases hr
+  · rename_i hc
+    simp only [Except.ok.injEq, Prod.mk.injEq] at hr
+    obtain ⟨rfl, rfl, rfl⟩ := hr
+    unfold Cascade.roundUp
+    refine ⟨?_, Nat.dvd_mul_left _ _, by omega, by omega, ?_, Nat.dvd_mul_left _ _⟩
+    · have h2 := Nat.div_add_mod (pH + cH + (over - 1) + cH - 1) cH
+      have h3 := Nat.mod_lt (pH + cH + (over - 1) + cH - 1) (by omega : cH > 0)
+      have e : (pH + cH + (over - 1) + cH - 1) / cH * cH = cH * ((pH + cH + (over - 1) + cH - 1) / cH) := Nat.mul_comm _ _
+      omega
+    · omega
+
+/-- **accepted_buffers_sufficient (c, in the terms of the Spec).**  Every rolling buffer of every cascade `build_cascades`
+    accepts is sufficient for the stripes of the schedule it accepted it for. -/
+theorem accepted_buffers_sufficient (b : Builder) (ref fb : CostMap) (limit : Int) (st : BState) (hu : UniqueIdx b.ops)
+    (h : buildCascades b ref fb limit = .ok st) :
+    ∀ ci ∈ st.cascades, ∀ e ∈ ci.buffers, ∃ p c pc cc,
+      p ∈ b.ops ∧ c ∈ b.ops ∧ p.index + 1 = c.index ∧ c.index = e.1 ∧ ref.lookup p.index = some pc ∧ ref.lookup c.index = some cc ∧
+      Spec.SchedMem.BufferSufficient pc.stripe.h pc.stripe.w pc.stripe.c cc.stripeInput.h cc.stripeInput.w c.overread e.2.h e.2.w e.2.c := by
+  intro ci hci e he
+  obtain ⟨p, c, pc, cc, hp, hc, hidx, hj, hpc, hcc, _, hr⟩ := buffer_map_consistent b ref fb limit st hu h ci hci e he
+  exact ⟨p, c, pc, cc, hp, hc, hidx, hj, hpc, hcc, rollingBufferShape_sufficient _ _ _ _ _ _ _ _ _ hr⟩
+
+/-! ### The invariant a longer-lived cache breaks
+
+Two convolutions 32×32, 8 → 32 → 8 channels.  `refA`: 2-row stripes (consumer reads 4 rows), `refB`: 8-row stripes (consumer
+reads 10 rows).  A cache filled by a call with `refA` and reused by a call with `refB` (what hoisting `BufferMap()` from
+`build_cascades` into the builder does) returns the 8-row buffer of the first call: the cascade is accepted with a smaller
+estimate, and its buffer is lower than one producer stripe plus one consumer stripe. -/
+
+def wOp0 : SOp :=
+  { index := 0, ifm := ⟨⟨1, 32, 32, 8⟩, 1, false⟩, ifm2 := none, ofm := ⟨⟨1, 32, 32, 32⟩, 1, true⟩, reqFullIfm := true, reqFullOfm := false,
+    binaryEw := false, ofmCanReuseIfm := false, cascadableStatic := true, dependants := [1], overread := 0 }
+def wOp1 : SOp :=
+  { index := 1, ifm := ⟨⟨1, 32, 32, 32⟩, 1, true⟩, ifm2 := none, ofm := ⟨⟨1, 32, 32, 8⟩, 1, false⟩, reqFullIfm := false, reqFullOfm := true,
+    binaryEw := false, ofmCanReuseIfm := false, cascadableStatic := true, dependants := [], overread := 0 }
+def wBuilder : Builder := { ops := [wOp0, wOp1], spilling := false, nonLocal := [] }
+def wRefA : CostMap := [(0, ⟨⟨1, 2, 32, 32⟩, ⟨1, 4, 32, 8⟩, [], 0⟩), (1, ⟨⟨1, 2, 32, 8⟩, ⟨1, 4, 32, 32⟩, [], 0⟩)]
+def wRefB : CostMap := [(0, ⟨⟨1, 8, 32, 32⟩, ⟨1, 10, 32, 8⟩, [], 0⟩), (1, ⟨⟨1, 8, 32, 8⟩, ⟨1, 10, 32, 32⟩, [], 0⟩)]
+def wFb : CostMap := [(0, ⟨⟨1, 32, 32, 32⟩, ⟨1, 32, 32, 8⟩, [], 0⟩), (1, ⟨⟨1, 32, 32, 8⟩, ⟨1, 32, 32, 32⟩, [], 0⟩)]
+
+def cascadesOf (r : Except Err BState) : Option (List CascadeInfo) :=
+  match r with | .ok st => some st.cascades | .error _ => none
+def cacheOf (r : Except Err BState) : BufferMap :=
+  match r with | .ok st => st.bm | .error _ => []
+
+/-- the code as it is: each call computes the buffer of its own stripes (8 rows for `refA`, 20 rows for `refB`) -/
+example : cascadesOf (buildCascades wBuilder wRefA wFb 0) = some [⟨0, 1, [(1, ⟨1, 8, 32, 32⟩)], 24576⟩] ∧
+    cascadesOf (buildCascades wBuilder wRefB wFb 0) = some [⟨0, 1, [(1, ⟨1, 20, 32, 32⟩)], 36864⟩] := by decide
+
+/-- **buffer_map_stale_witness.**  With the cache of the `refA` call, the `refB` call accepts the cascade with the 8-row buffer
+    and the estimate of the first call; the buffer is not `rolling_buffer_shape` of the current stripes and violates the Spec
+    (8 < 8 + 10). -/
+theorem buffer_map_stale_witness :
+    cascadesOf (buildCascadesFrom (cacheOf (buildCascades wBuilder wRefA wFb 0)) wBuilder wRefB wFb 0)
+      = some [⟨0, 1, [(1, ⟨1, 8, 32, 32⟩)], 24576⟩] ∧
+    ¬ Spec.SchedMem.BufferSufficient 8 32 32 10 32 0 8 32 32 ∧
+    ¬ (cacheOf (buildCascades wBuilder wRefA wFb 0)).Consistent wBuilder.ops wRefB := by
+  refine ⟨by decide, ?_, ?_⟩
+  · intro h; have := h.1; omega
+  · intro h
+    have := h wOp0 (by simp [wBuilder]) wOp1 (by simp [wBuilder]) (⟨1, 8, 32, 32⟩, 8192) (by decide)
+    have e : computeBuffer (some wOp0) (some wOp1) wRefB = .ok (⟨1, 20, 32, 32⟩, 20480) := by rfl
+    rw [e] at this
+    simp at this
+
+/-! ## (a) what `CascadeInfo.mem_usage` stands for -/
+
+/-- **cascade_estimate_closed_form (a, builder side).**  For every cascade `build_cascades` returns there is the chain
+    `l` of its operations (consecutive indices `start … end`, each pair joined by a rolling buffer) such that
+    `mem_usage + non_local(first)` is
+    * Dedicated SRAM (`spilling`): the weight buffers of all operations + the rolling buffers between them,
+    * otherwise: the first operation's IFM in full + those buffers + the last operation's OFM in full + the non-local
+      usage of the first operation;
+    and in Dedicated-SRAM mode that sum does not exceed the limit the builder was given (`dedicated_sram_cascade_within_limit`). -/
+theorem cascade_estimate_closed_form (b : Builder) (ref fb : CostMap) (limit : Int) (st : BState) (hu : UniqueIdx b.ops)
+    (h : buildCascades b ref fb limit = .ok st) :
+    ∀ ci ∈ st.cascades, ∃ (l : List SOp) (first : SOp),
+      RChain b.ops l ∧ l.head? = some first ∧ l.length > 1 ∧ first.index = ci.start ∧ ci.end_ = ci.start + (l.length - 1) ∧
+      ci.memUsage + b.nl ci.start =
+        (if b.spilling then (chainBuffers ref l : Int)
+         else ((first.ifm.sizeInBytes + chainBuffers ref l + lastOfm l : Nat) : Int) + b.nl first.index) := by
+  intro ci hci
+  have hinv := buildCascadesFrom_inv [] b ref fb limit st hu (by intro p _ c _ v hv; simp at hv) h
+  obtain ⟨l, first, h1, h2, h3, h4, h5, h6, _⟩ := (hinv.good ci hci).ex
+  refine ⟨l, first, h1, h2, h3, h4, h5, ?_⟩
+  rw [h6]; unfold cascadeSizeOf
+  split <;> simp_all
+
+theorem dedicated_sram_cascade_within_limit (b : Builder) (ref fb : CostMap) (limit : Int) (st : BState) (hu : UniqueIdx b.ops)
+    (hs : b.spilling = true) (h : buildCascades b ref fb limit = .ok st) :
+    ∀ ci ∈ st.cascades, ci.memUsage + b.nl ci.start ≤ limit := by
+  intro ci hci
+  have hinv := buildCascadesFrom_inv [] b ref fb limit st hu (by intro p _ c _ v hv; simp at hv) h
+  obtain ⟨l, first, _, _, _, _, _, _, h7⟩ := (hinv.good ci hci).ex
+  exact h7 hs
+
 end VelaVerif.Props.C12Sched
